@@ -13,5 +13,10 @@ long gl_node(long a) { return g_vh_hooks.node(a); }
 #endif
 int vh_helper_id() { return VH_GUEST_ID; }
 int vh_whoami() { return vh_helper_id() * 100 + VH_GUEST_ID; }
+// exported by library 1 only; the harness executable exports a function of the same name (-rdynamic): an instance bound to
+// library 2 must NOT find it
+#if VH_GUEST_ID == 1
+int vh_only_in_1() { return 111; }
+#endif
 void gv_node(long a) { g_vh_hooks.node_void(a); }
 }
